@@ -125,10 +125,30 @@ pub fn run(cfg: &Cfg, rep: &mut Report) {
     run_cases(cfg, "undefined", n, rep, |rng, ctx| {
         let q = &QUANTITIES[(ctx.index % QUANTITIES.len() as u64) as usize];
         let lit = gen_nrf(rng);
-        let mut suffix: Vec<u8> = match rng.usize(4) {
+        let mut suffix: Vec<u8> = match rng.usize(6) {
             0 => {
                 let f: &str = *rng.pick(FOREIGN);
                 case_pattern(rng, f)
+            }
+            4 => {
+                // spellings people and vendors use that SCPI-99 does not define (unit names written out, plurals, degree
+                // notations, SI symbols SCPI replaces, multiplier words)
+                const ALIASES: &[&str] = &[
+                    "DEGC", "DEGF", "DEGK", "DEGR", "C", "F", "KEL", "KELVIN", "CELSIUS", "CENT", "FAHR", "VOLT", "VOLTS", "VDC", "VAC", "VRMS", "VPK", "VPP", "AMP", "AMPS", "AMPERE", "ARMS", "HERTZ", "CPS", "RPM", "SEC", "SECS",
+                    "SECOND", "MSEC", "USEC", "NSEC", "MINS", "HRS", "HOUR", "DAY", "DAYS", "YR", "OHMS", "MHO", "SIEMENS", "WATT", "WATTS", "FARAD", "HENRY", "JOULE", "JOULES", "COUL", "COULOMB", "DEGREE", "DEGREES", "DEGS", "RADIAN",
+                    "RADS", "GRAD", "GON", "REV", "PERCENT", "PERC", "PCNT", "PPB", "PPT", "DBC", "DBFS", "NEPER", "NP", "MEG", "MEGA", "KILO", "MILLI", "MICRO", "NANO", "PICO", "K", "M", "U", "N", "P", "G", "T", "MA", "X", "E", "EXA",
+                    "PK", "PP", "RMS", "PKPK", "DB", "DBM", "DBV", "DBW", "DBUV", "DBMV", "DBA", "DBUA", "BEL", "B", "H", "S", "V", "A", "W", "J", "HZ", "OHM", "SIE", "RAD", "DEG", "MNT", "PCT", "PPM", "CEL", "FAR",
+                ];
+                let a: &str = *rng.pick(ALIASES);
+                case_pattern(rng, a)
+            }
+            5 => {
+                // a suffix defined for some quantity (this one or another) with one letter added at either end
+                let o = &QUANTITIES[rng.usize(QUANTITIES.len())];
+                let mut s = rng.pick(o.table).s.as_bytes().to_vec();
+                let c = b'A' + rng.usize(26) as u8;
+                if rng.bool() { s.push(c) } else { s.insert(0, c) }
+                case_pattern(rng, std::str::from_utf8(&s).unwrap())
             }
             1 => {
                 // one-character near miss of a defined suffix
